@@ -2,6 +2,7 @@ package driver
 
 import (
 	"bufio"
+	"math"
 	"encoding/json"
 	"fmt"
 	"os"
@@ -404,6 +405,24 @@ func (r *Runner) Run() int {
 					b, _ := json.Marshal(f.Path)
 					os.WriteFile(filepath.Join(dir, "schedule_decisions.json"), b, 0o644)
 					confirmed = true
+				}
+			}
+			if !confirmed && r.optFor(hr.Name).Mode == "U" {
+				// under uninterpreted arithmetic the model's input values are arbitrary
+				// (often all zero, where many differences vanish): retry natively with
+				// generic values for the float inputs, same case-split choices
+				gt := append([]ssaexec.TapeEntry{}, f.Tape...)
+				k := 0
+				for i := range gt {
+					if gt[i].Kind == "f64" {
+						k++
+						gt[i].V = math.Float64bits(17.25 + 3.0625*float64(k) + 1/float64(k+2))
+					}
+				}
+				rr2, err := L.Replay(hr.Pkg, hr.Name, gt, dir, to)
+				if err == nil && rr2.Confirmed {
+					rr, confirmed = rr2, true
+					fo.Native = rr2.Kind + " (generic input values)"
 				}
 			}
 			if !confirmed && f.OverApprox {
